@@ -19,7 +19,14 @@ class HistoryMachine(RuleBasedStateMachine):
     def step(self, op):
         self.history.append(op)
         self._holder['history'] = self.history
-        return self.interp.apply(op)
+        try:
+            return self.interp.apply(op)
+        except AssertionError as v:
+            if hasattr(v, 'clause'):
+                # remember the first observed oracle failure: reported if Hypothesis later finds the run not
+                # reproducible (code under test behaving non-deterministically)
+                self._holder.setdefault('violation', (list(self.history), str(v), v.clause))
+            raise
 
     def teardown(self):
         self.interp.close()
